@@ -481,6 +481,46 @@ Qed.
 
 End ProtocolProofs.
 
+(* ---- the theorems at the program of the code as it stands (call_prog = call_prog_repaired) ---- *)
+Lemma code_history_independent :
+  forall (E S A L : Type) (dm : bool) (cfg : config) (O : oracles E S A L) (configured : option A)
+         (h : list (event E S)) (e : option E) (s : S),
+  snd (call dm cfg O create_prog call_prog (run dm cfg O create_prog call_prog (init_state configured) h) e s)
+  = spec dm cfg O create_prog call_prog configured h e s.
+Proof. intros. apply repaired_full. Qed.
+
+Lemma code_log_current :
+  forall (E S A L : Type) (dm : bool) (cfg : config) (O : oracles E S A L) (configured : option A)
+         (h : list (event E S)) (e : option E) (s : S) (v : entry) (lg : list (line E S L)),
+  snd (call dm cfg O create_prog call_prog (run dm cfg O create_prog call_prog (init_state configured) h) e s)
+    = ORet v (Some lg) ->
+  Forall (line_current e s) lg.
+Proof. intros E S A L dm cfg O configured h e s v lg. apply repaired_log_current. Qed.
+
+(* a raising call leaves the persistent state exactly as a call that was never made, unless its expect value was valid *)
+Lemma code_failed_expect_leaves_no_trace :
+  forall (E S A L : Type) (dm : bool) (cfg : config) (O : oracles E S A L)
+         (h : list (event E S)) (x : E) (s : S),
+  is_valid O x = false ->
+  let m0 := run dm cfg O create_prog call_prog (init_state None) h in
+  let m1 := fst (call dm cfg O create_prog call_prog m0 (Some x) s) in
+  st_answers m1 = st_answers m0 /\ st_inferring m1 = st_inferring m0 /\ st_created m1 = false.
+Proof.
+  intros E S A L dm cfg O h x s Hv. simpl.
+  pose proof (repaired_run dm cfg O h None _ (init_inv_repaired O)) as I0.
+  set (m0 := run dm cfg O create_prog_code call_prog_repaired (init_state None) h) in *.
+  change call_prog with call_prog_repaired. change create_prog with create_prog_code.
+  pose proof (repaired_step dm cfg O _ m0 (Some x) s I0) as [C1 T1].
+  destruct I0 as [C0 T0]. simpl in T1. rewrite Hv in T1.
+  unfold answers_track in *. unfold m0 in *. clear m0.
+  destruct (fold_left (next_last O) h None) as [ev|].
+  - destruct T0 as (a & V0 & A0 & F0). destruct T1 as (a' & V1 & A1 & F1).
+    rewrite V0 in V1. inversion V1; subst a'.
+    repeat split; [congruence | congruence | exact C1].
+  - destruct T0 as [A0 F0]. destruct T1 as [A1 F1].
+    repeat split; [congruence | congruence | exact C1].
+Qed.
+
 (* the instance state after ANY history, repaired protocol: determined by the last successfully supplied expect *)
 Lemma repaired_state_determined :
   forall (E S A L : Type) (dm : bool) (cfg : config) (O : oracles E S A L) (h : list (event E S)),
@@ -502,7 +542,7 @@ Lemma configured_state_untouched :
   st_answers m = Some a /\ st_inferring m = false /\ st_created m = false.
 Proof.
   intros E S A L dm cfg O a h. simpl.
-  apply (configured_run dm cfg O call_prog a h); [left; reflexivity | repeat split].
+  apply (configured_run dm cfg O call_prog a h); [right; reflexivity | repeat split].
 Qed.
 
  (* the configured-answers theorem instantiated at the program of the code as it stands *)
@@ -511,7 +551,7 @@ Lemma configured_code :
          (h : list (event E S)) (e : option E) (s : S),
   snd (call dm cfg O create_prog call_prog (run dm cfg O create_prog call_prog (init_state (Some a)) h) e s)
   = spec dm cfg O create_prog call_prog (Some a) h e s.
-Proof. intros E S A L dm cfg O a h e s. apply configured_history_independent. left. reflexivity. Qed.
+Proof. intros E S A L dm cfg O a h e s. apply configured_history_independent. right. reflexivity. Qed.
 
 (* ---------------------------------------------------------------------------------------------- *)
 (* the negative-powers switch                                                                     *)
@@ -684,5 +724,10 @@ Lemma clean_example :
     = ORet ok_entry (Some [LVersion; LResp 2; LChk 7])
   /\ forallb (event_clean (mkConfig true) O2) [(Some 1, 0); (None, 1); (Some 2, 2)] = true.
 Proof. repeat split; vm_compute; reflexivity. Qed.
+
+Lemma code_example :
+  reused false (mkConfig true) O2 call_prog None [(Some 1, 0); (None, 1); (Some 2, 2)] None 2
+    = ORet ok_entry (Some [LVersion; LResp 2; LChk 7]).
+Proof. vm_compute; reflexivity. Qed.
 
 End Witness.
